@@ -151,7 +151,7 @@ def unit(job, variant, pi, seed, n_edits, chain_len, want_model):
     rng = random.Random(f"C04:{seed}:{job}:{variant}:{pi}")
     out = {"pairs": 0, "chains": 0, "failing": [], "labels": {}, "reqs": [], "expect": [], "sample": None}
     delay_skill, names = delay_skill_of(job, variant)
-    base_cmds = simlib.random_plan(rng, job, variant, rng.randint(21, 33))
+    base_cmds = simlib.random_plan(rng, job, variant, rng.randint(21, 33), offgrid=True)
     base = [command_text(c) for c in base_cmds]
     # a few debug lines at fixed places, so that edits can change only the TEXT of a debug line
     for pos in (2, 8, 13, 19, 24):
